@@ -15,6 +15,7 @@ type c14Call struct {
 	Units   [][]int `json:"units"`
 	Scs     []int   `json:"scs"`
 	SkipAgg *bool   `json:"skipagg_now"` // set: the application changes SkipAggregation before this call
+	Donl    *bool   `json:"donl_now"`    // set: the application changes AddDONL before this call
 }
 
 type c14Case struct {
@@ -126,13 +127,17 @@ func runC14(raw json.RawMessage, w *Writer) {
 			if call.SkipAgg != nil {
 				p.SkipAggregation = *call.SkipAgg
 			}
+			if call.Donl != nil {
+				p.AddDONL = *call.Donl
+			}
+			donl := p.AddDONL
 			r, _ := guard(func() { frags = p.Payload(uint16(c.Mtu), stream[bounds[k]:bounds[k+1]]) })
 			intact := bytes.Equal(stream, pristine) // the call wrote neither into its window nor into what lies behind it
 			parsed := []Ev{}
 			for _, f := range frags {
-				parsed = append(parsed, h265Parse(f, c.Donl))
+				parsed = append(parsed, h265Parse(f, donl))
 			}
-			w.Emit(Ev{"ev": "payload", "k": k, "mtu": c.Mtu, "donl": c.Donl, "skipagg": p.SkipAggregation, "units": call.Units, "res": r, "stream_intact": intact,
+			w.Emit(Ev{"ev": "payload", "k": k, "mtu": c.Mtu, "donl": donl, "skipagg": p.SkipAggregation, "units": call.Units, "res": r, "stream_intact": intact,
 				"frags": intss(frags), "parsed": parsed})
 		}
 	}
